@@ -148,6 +148,7 @@ func genCase(t *rapid.T, v variant) *caseSpec {
 			c.Pos = nLead
 		}
 	}
+	c.SettleMs = rapid.SampledFrom([]int{0, 0, 0, 0, 0, 1, 5}).Draw(t, "settleMs")
 	planProbe(c)
 	return c
 }
@@ -599,16 +600,16 @@ func structured(t *testing.T, v variant, quick, thorough int) {
 // differ in their generator configuration, which also makes their case streams
 // different under one -rapid.seed.
 func TestContainmentH264(t *testing.T) {
-	structured(t, variant{name: "h264", codec: "H264", classLo: 0, classHi: 19}, 450, 6000)
+	structured(t, variant{name: "h264", codec: "H264", classLo: 0, classHi: 19}, 1500, 20000)
 }
 func TestContainmentH265(t *testing.T) {
-	structured(t, variant{name: "h265", codec: "H265", classLo: 0, classHi: 19}, 450, 6000)
+	structured(t, variant{name: "h265", codec: "H265", classLo: 0, classHi: 19}, 1500, 20000)
 }
 func TestContainmentAudioControlHeader(t *testing.T) {
-	structured(t, variant{name: "audio-control-header", codec: "H264", forceAudio: true, classLo: 9, classHi: 15}, 450, 6000)
+	structured(t, variant{name: "audio-control-header", codec: "H264", forceAudio: true, classLo: 9, classHi: 15}, 1500, 20000)
 }
 func TestContainmentCorruptions(t *testing.T) {
-	structured(t, variant{name: "corruptions", classLo: 16, classHi: 19}, 450, 6000)
+	structured(t, variant{name: "corruptions", classLo: 16, classHi: 19}, 1500, 20000)
 }
 
 // TestReplayFile re-runs the case of a violation file written by this package.
